@@ -179,7 +179,7 @@ def mutate(rng, T, v):
             return ("f", v[1], v[2][:-1])
         return ("f", v[1] + 1, v[2])
     name, labels, fs = v[1], v[2], v[3]
-    if fs and rng.random() < 0.75:
+    if fs and rng.random() < 0.85:
         i = rng.randrange(len(fs))
         return ("t", name, labels, fs[:i] + (mutate(rng, T, fs[i]),) + fs[i + 1:])
     others = [s for s in T.shapes() if s != (name, labels)]
@@ -258,7 +258,7 @@ def gen_direct(rng):
     """-> (case line, meta dict)"""
     T = Tables(rng)
     mode = rng.random()
-    v = gen_value(rng, T, rng.choice([1, 2, 2, 3, 4]))
+    v = gen_value(rng, T, rng.choice([1, 2, 2, 3, 4]) if mode < 0.4 or mode >= 0.8 else rng.choice([2, 3, 4, 5]))
     if mode < 0.4:
         w, m = v, "same-structure"
     elif mode < 0.8:
@@ -357,7 +357,7 @@ def gen_equal_case(rng):
     extra = [val(1) for _ in range(rng.choice([0, 0, 1]))]          # deeper in the stack, not compared
     count = n if rng.random() < 0.92 else n + len(extra) + 1        # sometimes more than the stack holds
     body = " ".join(real(v) for v in extra + vals)
-    return "(equal (consts %s) (heap) (tuples %s) %d %s)" % (T.fmt_consts(T.consts), T.fmt_tuples(T.tuples), count, body)
+    return "(%s (consts %s) (heap) (tuples %s) %d %s)" % (rng.choice(["equal", "equal-not"]), T.fmt_consts(T.consts), T.fmt_tuples(T.tuples), count, body)
 
 
 # ----------------------------------------------------------------------------------------------
@@ -379,9 +379,18 @@ def pgen_value(rng, depth):
         return ("t", "Str", (None,), (("b", bytes(rng.choice(b"abcxyz019") for _ in range(rng.randint(1, 4)))),))
     if k < 0.66:
         return ("t", None, (), ())      # nil
-    labels = tuple(rng.choice(PLABELS) for _ in range(rng.choice([0, 1, 1, 2, 2, 3])))
+    labels = plabels(rng, rng.choice([0, 1, 1, 2, 2, 3]))
     name = rng.choice(PNAMES)
     return ("t", name, labels, tuple(pgen_value(rng, depth - 1) for _ in labels))
+
+
+def plabels(rng, n):
+    """n field labels; a label may be absent, but named labels are distinct (the compiler rejects duplicates)."""
+    out = []
+    for _ in range(n):
+        l = rng.choice(PLABELS + ["z"])
+        out.append(None if l in out else l)
+    return tuple(out)
 
 
 def pmutate(rng, v):
@@ -402,7 +411,8 @@ def pmutate(rng, v):
     if k < 0.4 or not labels:
         return ("t", rng.choice([n for n in PNAMES if n != name and not (n is None and not labels)] or ["A"]), labels, fs)
     i = rng.randrange(len(labels))
-    return ("t", name, labels[:i] + (rng.choice([l for l in PLABELS if l != labels[i]]),) + labels[i + 1:], fs)
+    new = rng.choice([l for l in PLABELS + ["z", "w"] if l != labels[i] and (l is None or l not in labels)])
+    return ("t", name, labels[:i] + (new,) + labels[i + 1:], fs)
 
 
 def is_nil(v):
@@ -581,21 +591,31 @@ def gen_program(rng, multi):
     form = rng.choice(FORMS)
     if form == "literal":
         g.used("literal-pattern")
+        g.pre.append("b = %s" % lit(vb))
         test = "a =%s" % lit(vb)
     else:
         eb = g.build(vb)
         g.pre.append("b = %s" % eb)
         test = {"pin": "b =&a", "repeat": "[a, b] =[x, x]", "nested-pin": "W[a, 7] =W[&b, 7]",
                 "labelled-pin": "[k: a] =[k: &b]", "branch-pin": "b { =&a => Ok | [] }"}[form]
-    src = ", ".join(g.pre + [test])
+    # the program yields both values it actually built and the verdict of the pattern
+    src = ", ".join(g.pre + ["[a, b, %s]" % test])
     line = sexpr.quote(src) + "".join(" (mod %s %s)" % (sexpr.quote(k), sexpr.quote(s)) for k, s in sorted(g.mods.items()))
     equal = va == vb
-    nil_pin = equal and is_nil(va) and form != "literal"
     paths = dict(g.paths)
     nontrivial = (equal and len([p for p in paths if p not in ("literal", "literal-tuple")]) >= 1) or \
                  (not equal and (diff_depth(va, vb) or 0) >= 2)
-    return line, dict(mode=m, form=form, expect=OK_LINE if equal else NIL_LINE, nil_pin=nil_pin, paths=paths,
-                      nontrivial=nontrivial, multi=multi, va=va, vb=vb)
+    return line, dict(mode=m, form=form, paths=paths, nontrivial=nontrivial, multi=multi, va=va, vb=vb,
+                      nil_pair=equal and is_nil(va))
+
+
+def pdump(v):
+    """The parsed form of qvh::dump_value's output for an intended value."""
+    if v[0] == "i":
+        return ["i", str(v[1])]
+    if v[0] == "b":
+        return ["b", v[1].hex()] if v[1] else ["b"]
+    return ["t", v[1] or "-", [l or "-" for l in v[2]]] + [pdump(f) for f in v[3]]
 
 
 def gen_ref_program(rng):
@@ -646,7 +666,7 @@ def run(ctx):
     samples = []
 
     # ------------------------------------------------------------------ (a) direct pairs
-    n_direct = ctx.n(12000, 400000)
+    n_direct = ctx.n(12000, 1500000)
     cases, metas = [], []
     for line in corpus("c13_direct.txt"):
         cases.append(line)
@@ -710,7 +730,7 @@ def run(ctx):
     samples += [{"case": cases[-1], "impl": real[-1], "model": model[-1]}]
 
     # ------------------------------------------------------------------ (a') Equal(n) through bytecode
-    ecases = corpus("c13_equal.txt") + [gen_equal_case(rng) for _ in range(ctx.n(1500, 30000))]
+    ecases = corpus("c13_equal.txt") + [gen_equal_case(rng) for _ in range(ctx.n(1500, 100000))]
     _, ereal = ctx.run_sharded(qe, ecases)
     _, emodel = ctx.run_sharded(drv, ecases)
     evaluations += 2 * len(ecases)
@@ -730,13 +750,13 @@ def run(ctx):
     for line in corpus("c13_programs.txt"):
         exp, src = line.split(" ", 1)
         progs.append(src)
-        pmetas.append(dict(expect={"Ok": OK_LINE, "Nil": NIL_LINE}.get(exp, exp), form="corpus", mode="corpus", nil_pin=False,
+        pmetas.append(dict(expect={"Ok": OK_LINE, "Nil": NIL_LINE}.get(exp, exp), form="corpus", mode="corpus",
                            paths={}, nontrivial=True, multi="@" in src or "__file_open__" in src, corpus=True))
-    for _ in range(ctx.n(5000, 150000)):
+    for _ in range(ctx.n(5000, 500000)):
         line, meta = gen_program(rng, multi=False)
         progs.append(line)
         pmetas.append(meta)
-    for _ in range(ctx.n(2500, 60000)):
+    for _ in range(ctx.n(2500, 200000)):
         line, meta = gen_program(rng, multi=True)
         progs.append(line)
         pmetas.append(meta)
@@ -758,9 +778,12 @@ def run(ctx):
     for i, x in zip(single, o):
         outs[i].append(x)
     pstats = dict(programs=len(progs), executions=0, verdict_ok=0, verdict_nil=0, skipped_compile_error=0,
-                  equal_via_different_paths=0, nil_pin_cases=0)
+                  equal_via_different_paths=0, equal_nil_pairs=0, built_value_differs_from_intended=0,
+                  non_verdict_outcomes=0)
     forms, paths, pmodes = {}, {}, {}
     prog_nontrivial = set()
+    odd_samples = []
+    OKV, NILV = ["t", "Ok", []], ["t", "-", []]
     for src, meta, res in zip(progs, pmetas, outs):
         pstats["executions"] += len(res)
         evaluations += len(res)
@@ -768,30 +791,57 @@ def run(ctx):
         pmodes[meta["mode"]] = pmodes.get(meta["mode"], 0) + 1
         for p, k in meta["paths"].items():
             paths[p] = paths.get(p, 0) + k
-        if any(x.startswith("(compile-error") or x == "(parse-error)" for x in res) and not meta.get("corpus"):
+        if meta.get("corpus"):
+            # corpus probes state their expected outcome line
+            pstats["verdict_ok" if res[0] == OK_LINE else "verdict_nil"] += 1
+            if any(x != meta["expect"] for x in res):
+                disagreements += 1
+                ctx.violation({"kind": "impl-violation", "what": "corpus probe: pattern verdict differs from structural equality of the two values (regression)",
+                               "source": src, "expected": meta["expect"], "impl": res})
+            continue
+        if any(x.startswith("(compile-error") or x == "(parse-error)" for x in res):
             # the generator produced something the front end rejects: not a verdict; counted
             pstats["skipped_compile_error"] += 1
             continue
-        if meta["nil_pin"]:
-            pstats["nil_pin_cases"] += 1
-        bad = [x for x in res if x != meta["expect"]] if meta["expect"] in (OK_LINE, NIL_LINE) else \
-              [x for x in res if x != OK_LINE]
+        parsed = []
+        for x in res:
+            try:
+                t = sexpr.parse(x)
+                assert t[0] == "ok" and t[1][:3] == ["t", "-", ["-", "-", "-"]] and len(t[1]) == 6 and t[1][5] in (OKV, NILV)
+                parsed.append(t[1][3:])
+            except Exception:
+                parsed.append(None)
+        if any(q is None for q in parsed):
+            # a run-time error / panic / timeout of a generated program is not an equality verdict
+            pstats["non_verdict_outcomes"] += 1
+            if len(odd_samples) < 5:
+                odd_samples.append({"source": src, "impl": res})
+            continue
         if meta["nontrivial"]:
             prog_nontrivial.add(hashlib.sha1(src.encode()).hexdigest())
-            if meta["expect"] == OK_LINE:
-                pstats["equal_via_different_paths"] += 1
-        pstats["verdict_ok" if res[0] == OK_LINE else "verdict_nil"] += 1
-        if bad:
+        if meta["nil_pair"]:
+            pstats["equal_nil_pairs"] += 1
+        a0, b0, v0 = parsed[0]
+        pstats["verdict_ok" if v0 == OKV else "verdict_nil"] += 1
+        if v0 == OKV and meta["nontrivial"]:
+            pstats["equal_via_different_paths"] += 1
+        if any((a, b) != (pdump(meta["va"]), pdump(meta["vb"])) for a, b, _ in parsed):
+            # the construction path did not build the intended value (e.g. a defect outside equality):
+            # the verdict is still judged, against the values actually built
+            pstats["built_value_differs_from_intended"] += 1
+            if len(odd_samples) < 5:
+                odd_samples.append({"source": src, "intended": [repr(meta["va"]), repr(meta["vb"])], "impl": res})
+        wrong = [x for x, (a, b, v) in zip(res, parsed) if (v == OKV) != (a == b)]
+        if wrong:
             disagreements += 1
             if disagreements <= 8:
-                ctx.violation({"kind": "impl-violation", "what": "pattern verdict differs from structural equality of the two values",
-                               "source": src, "expected": meta["expect"], "impl": res,
-                               "values": [repr(meta.get("va")), repr(meta.get("vb"))], "form": meta["form"]})
-    samples += [{"source": progs[-1], "expected": pmetas[-1]["expect"], "impl": outs[-1]}]
+                ctx.violation({"kind": "impl-violation", "what": "pattern verdict (3rd component) differs from structural equality of the two values the program built (1st, 2nd component)",
+                               "source": src, "impl": res, "form": meta["form"]})
+    samples += [{"source": progs[-1], "impl": outs[-1]}]
 
     # ------------------------------------------------------------------ (c) refs
     rcases = corpus("c13_refs.txt")
-    for _ in range(ctx.n(300, 5000)):
+    for _ in range(ctx.n(300, 10000)):
         nw = rng.randint(1, 6)
         ws = rng.sample([0, 1, 2, 3, 255, 256, 32767, 32768, 65534, 65535], nw)
         sched = [rng.randrange(nw) for _ in range(rng.choice([1, 5, 40, 200]))]
@@ -811,7 +861,7 @@ def run(ctx):
             if disagreements <= 5:
                 ctx.violation({"kind": "correspondence-broken", "correspondence": "Equal.v run_mints/create_ref vs executor.rs create_ref",
                                "case": c, "impl": r, "model": m}, no_input=True)
-    rprogs = [gen_ref_program(rng) for _ in range(ctx.n(120, 3000))]
+    rprogs = [gen_ref_program(rng) for _ in range(ctx.n(120, 6000))]
     ref_prog_runs = 0
     for w in worker_counts:
         _, o = ctx.run_sharded(qe, [p for p, _ in rprogs], args=["--run", str(w)])
@@ -830,13 +880,13 @@ def run(ctx):
     ctx.cov.update({
         "evaluations": evaluations,
         "distinct_nontrivial": len(nontrivial_hashes) + len(prog_nontrivial),
-        "rule": "direct pair non-trivial = well-formed and (structurally equal but the two representations differ: other tuple ids of the same shape, constant vs heap binary, other rope shape / slot) or (unequal with the shallowest difference at depth >= 2); program non-trivial = equal values of which at least one is built along a non-literal path, or unequal values differing only at depth >= 2; distinct by SHA-1 of the case line / source",
+        "rule": "generators: (a) random tables with several ids per (name, labels) shape and near-miss shapes, values of all 8 variants, binaries as constants and as heap ropes (own/cat/slice/zero/tile), 6% ill-formed ids; (b) int/bin/tuple/string/nil values built by literal, computed, sliced, spread, generic constructor/identity, field access, function result, branch, in-memory module, process result, message; NOT generated: a nil value at the top of a branch bound to a variable (typing defect F27, property C01). direct pair non-trivial = well-formed and (structurally equal but the two representations differ: other tuple ids of the same shape, constant vs heap binary, other rope shape / slot) or (unequal with the shallowest difference at depth >= 2); program non-trivial = equal values of which at least one is built along a non-literal path, or unequal values differing only at depth >= 2; distinct by SHA-1 of the case line / source",
         "samples": samples,
         "traces_validated_against_impl": len(cases) + len(ecases) + len(rcases),
         "disagreements_checked": disagreements,
         "direct_pairs": dict(cases=len(cases), modes=modes, value_kinds=kinds, verdicts=verdicts, **stats),
         "equal_instruction_cases": dict(cases=len(ecases), outcomes=equal_outcomes),
-        "programs": dict(pstats, forms=forms, construction_paths=paths, modes=pmodes, worker_counts=worker_counts,
+        "programs": dict(pstats, unusual_outcome_samples=odd_samples, forms=forms, construction_paths=paths, modes=pmodes, worker_counts=worker_counts,
                          distinct_nontrivial=len(prog_nontrivial)),
         "refs": dict(direct_cases=len(rcases), program_runs=ref_prog_runs, refs_minted_and_checked_distinct=refs_minted,
                      bound="create_ref is injective only while an executor's counter stays below 2^48 (hypothesis of C13_refs_unique; the code does not check it; 2^48 mints on one worker are out of reach)"),
@@ -854,9 +904,22 @@ def replay(ctx, qe, qv, drv):
         src = obj["source"]
         outs = ctx.run_bin(qe, [src], args=["--run", str(obj.get("workers", 2))])[1]
         exp = obj.get("expected")
-        print("replay: %s -> %s (expected %s)" % (src, outs, exp))
-        if exp and any(x != exp for x in outs):
-            ctx.violation(dict(obj, impl=outs))
+        print("replay: %s -> %s%s" % (src, outs, " (expected %s)" % exp if exp else ""))
+        if exp:
+            if any(x != exp for x in outs):
+                ctx.violation(dict(obj, impl=outs))
+        else:
+            # generated program: [a, b, verdict] -- the verdict must be structural equality of a and b
+            for x in outs:
+                try:
+                    t = sexpr.parse(x)[1]
+                    a, b, v = t[3], t[4], t[5]
+                    if (v == ["t", "Ok", []]) != (a == b):
+                        ctx.violation(dict(obj, impl=outs))
+                        break
+                except Exception:
+                    ctx.violation(dict(obj, impl=outs), no_input=True)
+                    break
     elif "case" in obj:
         c = obj["case"]
         r = ctx.run_bin(qe, [c])[1]
